@@ -14,6 +14,14 @@
    construction; nothing outside naming.py assigns `<x>.global_namespace`; at least one construction must
    exist.  emits `namer_sites_gen : list (string * string * bool)` (file:line, namespace expression,
    namespace-is-the-full-getnamespace-result).
+ * the Namer every request goes to: the receiver of every `<x>.new_symbol(...)` must be the namer of the conversion
+   context -- `ctx.namer` / `self.ctx.namer`, a local variable assigned exactly once from a (validated) Namer
+   construction, or a parameter of the enclosing function that every call of that function in the file feeds with
+   such an expression.  Matters most for the requests that pass `()` as reserved set (the names of the wrapper
+   functions the transpiler generates AROUND the converted entity, the name of the entity): only the namespace of
+   the namer keeps them away from the globals / closure variables the user code reads.  emits
+   `receivers_gen : list (string * string * bool)` (file:line, resolved root, receiver-is-the-context-namer);
+   a root that is a parameter with a string default which no caller overrides is resolved to that literal.
 """
 import ast
 import os
@@ -155,6 +163,123 @@ def namer_sites(repo):
     return sorted(set(sites))
 
 
+def _is_ctx_namer(e):
+    """`ctx.namer` / `self.ctx.namer` / `<x>.ctx.namer`"""
+    return isinstance(e, ast.Attribute) and e.attr == 'namer' and (
+        (isinstance(e.value, ast.Name) and e.value.id == 'ctx') or
+        (isinstance(e.value, ast.Attribute) and e.value.attr == 'ctx'))
+
+
+def _params(func):
+    return [a.arg for a in func.args.posonlyargs + func.args.args]
+
+
+def _calls_of(t, func):
+    """calls `<x>.<func.name>(...)` / `<func.name>(...)` anywhere in the file (except inside func itself)"""
+    inside = set(id(n) for n in ast.walk(func))
+    out = []
+    for c in ast.walk(t):
+        if isinstance(c, ast.Call) and id(c) not in inside and (
+                (isinstance(c.func, ast.Attribute) and c.func.attr == func.name) or
+                (isinstance(c.func, ast.Name) and c.func.id == func.name)):
+            out.append(c)
+    return out
+
+
+def _actual(call, func, pname):
+    """the expression a call passes for parameter pname of func (None = not passed: the default applies)"""
+    ps = _params(func)
+    pos = ps.index(pname)
+    if isinstance(call.func, ast.Attribute) and ps and ps[0] in ('self', 'cls'):
+        pos -= 1
+    for kw in call.keywords:
+        if kw.arg == pname:
+            return kw.value
+        if kw.arg is None:
+            raise Untranslatable('untranslatable: line %d: call of %s with **kwargs' % (call.lineno, func.name))
+    if any(isinstance(a, ast.Starred) for a in call.args):
+        raise Untranslatable('untranslatable: line %d: call of %s with *args' % (call.lineno, func.name))
+    return call.args[pos] if 0 <= pos < len(call.args) else None
+
+
+def _namer_vars(func):
+    """local variables of func that are assigned exactly once, from a Namer construction (namer_sites validates
+    that every construction receives the full namespace)"""
+    stores = {}
+    for n in ast.walk(func):
+        if isinstance(n, ast.Name) and isinstance(n.ctx, ast.Store):
+            stores[n.id] = stores.get(n.id, 0) + 1
+    out = set()
+    for n in ast.walk(func):
+        if isinstance(n, ast.Assign) and len(n.targets) == 1 and isinstance(n.targets[0], ast.Name) \
+                and _is_namer_ctor(n.value) and stores.get(n.targets[0].id) == 1:
+            out.add(n.targets[0].id)
+    return out
+
+
+def _receiver_is_context_namer(recv, func, t, par, rel, depth=0):
+    """fail closed: True, or Untranslatable with the reason"""
+    where = '%s:%d' % (rel, recv.lineno)
+    if _is_ctx_namer(recv):
+        return True
+    if isinstance(recv, ast.Name) and isinstance(func, ast.FunctionDef):
+        if recv.id in _namer_vars(func) and recv.id not in _params(func):
+            return True
+        if recv.id in _params(func) and depth < 3:
+            if any(isinstance(n, ast.Name) and n.id == recv.id and isinstance(n.ctx, (ast.Store, ast.Del)) for n in ast.walk(func)):
+                raise Untranslatable('untranslatable: %s: the namer parameter %s of %s is rebound before new_symbol is called on it'
+                                     % (where, recv.id, func.name))
+            calls = _calls_of(t, func)
+            if not calls:
+                raise Untranslatable('untranslatable: %s: no call of %s found that shows which namer it receives' % (where, func.name))
+            for c in calls:
+                a = _actual(c, func, recv.id)
+                if a is None:
+                    raise Untranslatable('untranslatable: %s:%d: %s is called without a namer' % (rel, c.lineno, func.name))
+                _receiver_is_context_namer(a, _enclosing_function(c, par), t, par, rel, depth + 1)
+            return True
+    raise Untranslatable('untranslatable: %s: new_symbol is requested from `%s`, which is not the namer of the conversion context '
+                         '(ctx.namer, built from the full namespace of the function)' % (where, ast.unparse(recv)))
+
+
+def _resolved_root(root, func, t):
+    """text of the root argument; a parameter with a constant string default that no caller overrides -> that literal"""
+    if isinstance(root, ast.Name) and isinstance(func, ast.FunctionDef) and root.id in _params(func):
+        ps = _params(func)
+        defaults = func.args.defaults
+        k = ps.index(root.id) - (len(ps) - len(defaults))
+        if 0 <= k < len(defaults) and isinstance(defaults[k], ast.Constant) and isinstance(defaults[k].value, str):
+            try:
+                if all(_actual(c, func, root.id) is None for c in _calls_of(t, func)):
+                    return repr(defaults[k].value)
+            except Untranslatable:
+                pass
+    return ast.unparse(root)
+
+
+def receiver_sites(repo):
+    """(file:line, resolved root, True) for every new_symbol request in malt/ -- see the module docstring"""
+    out = []
+    for d, _, fs in os.walk(os.path.join(repo, 'malt')):
+        for fn in sorted(fs):
+            if not fn.endswith('.py'):
+                continue
+            p = os.path.join(d, fn)
+            rel = os.path.relpath(p, repo)
+            t = ast.parse(open(p).read())
+            par = None
+            for c in ast.walk(t):
+                if isinstance(c, ast.Call) and isinstance(c.func, ast.Attribute) and c.func.attr == 'new_symbol':
+                    if par is None:
+                        par = _parents(t)
+                    if len(c.args) != 2 or c.keywords:
+                        raise Untranslatable('untranslatable: %s:%d: new_symbol called as %s' % (rel, c.lineno, ast.unparse(c)))
+                    func = _enclosing_function(c, par)
+                    ok = _receiver_is_context_namer(c.func.value, func, t, par, rel)
+                    out.append(('%s:%d' % (rel, c.lineno), _resolved_root(c.args[0], func, t), ok))
+    return sorted(set(out))
+
+
 def translate(repo):
     apath = os.path.join(repo, 'malt', 'pyct', 'static_analysis', 'activity.py')
     tree = ast.parse(open(apath).read())
@@ -256,6 +381,7 @@ def translate(repo):
                         sites.append(('%s:%d' % (os.path.relpath(p, repo), c.lineno), ast.unparse(c.args[0]), kind))
     sites = sorted(set(sites))
     nsites = namer_sites(repo)
+    rsites = receiver_sites(repo)
     out = ['(* GENERATED on every run by tools/translate/c11_names.py -- do not edit *)',
            'From Coq Require Import List String.', 'Import ListNotations.', 'Require Import MV.Names.Namer.',
            'Local Open Scope string_scope.',
@@ -263,7 +389,9 @@ def translate(repo):
            'Definition callsites_gen : list (string * string * bool) := [',
            ';\n'.join('  ("%s", "%s", %s)' % (a, b.replace('"', "'"), 'true' if k else 'false') for a, b, k in sites), '].',
            'Definition namer_sites_gen : list (string * string * bool) := [',
-           ';\n'.join('  ("%s", "%s", %s)' % (a, b.replace('"', "'"), 'true' if k else 'false') for a, b, k in nsites), '].']
+           ';\n'.join('  ("%s", "%s", %s)' % (a, b.replace('"', "'"), 'true' if k else 'false') for a, b, k in nsites), '].',
+           'Definition receivers_gen : list (string * string * bool) := [',
+           ';\n'.join('  ("%s", "%s", %s)' % (a, b.replace('"', "'"), 'true' if k else 'false') for a, b, k in rsites), '].']
     return '\n'.join(out) + '\n'
 
 
